@@ -25,7 +25,7 @@ def cpp_schema_cfg(tier: str, n_structs: Tuple[int, int]) -> S.SchemaCfg:
     return S.SchemaCfg(
         types=S.TypeCfg(depth=2 if tier == "quick" else 3, max_arr=3),
         min_enums=1, max_enums=3, min_structs=n_structs[0], max_structs=n_structs[1], min_fields=1, max_fields=5,
-        enum_max_bits=8, type_names=cpp_type, field_names=cpp_field, shuffle_ids=True,
+        enum_max_bits=8, type_names=cpp_type, field_names=cpp_field, shuffle_ids=True, dup_ids=True,
     )
 
 
@@ -64,6 +64,20 @@ def cpp_program(draw, tier: str, n_structs: Tuple[int, int] = (8, 14), can: bool
                 t1, t2 = M.Arr(M.Arr(leaf, n1), n2), M.Arr(M.Arr(leaf, n2), n1)
             st_.fields.append(M.Field(fn[0], top + 2, t1))
             st_.fields.append(M.Field(fn[1], top + 1, t2))
+    # one wide struct (17-22 scalar fields, ids in any order, sometimes one id used twice): sorting 17+ elements
+    # takes other code paths than sorting a handful
+    if draw(st.integers(0, 2)) == 0:
+        names0 = {d.name for d in s.decls}
+        wname = draw(cpp_type.filter(lambda x: x not in names0))
+        k = draw(st.integers(17, 22))
+        fns = draw(S.unique_names(cpp_field, k, k))
+        ids = draw(st.permutations(list(range(k)))) if draw(st.booleans()) else list(range(k))
+        ids = list(ids)
+        if draw(st.booleans()):
+            i = draw(st.integers(0, k - 2))
+            ids[i + 1] = ids[i]
+        wf = [M.Field(fn, fid, draw(st.sampled_from([M.U(12), M.U(16), M.I(5), M.U(1), M.U(8)]))) for fn, fid in zip(fns, ids)]
+        s.decls.append(M.Struct(wname, wf))
     names = {d.name for d in s.decls}
     structs = [x.name for x in s.structs]
     if services and draw(st.booleans()):
